@@ -71,20 +71,37 @@ def _codec_name(a, k, key="encoding"):
 
 @method(SStr, "encode")
 def _str_encode_idna(it, s, *a, **k):
+    """under idna_facts the idna codec is modelled here completely (independent of other extension modules' codec models)"""
+    if not getattr(it.ex, "idna_facts", False) or s.concrete() is not None:
+        return _default_str_encode(it, s, *a, **k)
+    enc = _codec_name(a, k)
+    if enc == "idna":
+        ok = uf("encodable_idna", _S, z3.BoolSort())(s.t)
+        if not it.branch(SBool(ok)):
+            it.raise_(UnicodeError, "idna")
+        r = uf("encode_idna_strict", _S, _S)(s.t)
+        it.ex.assume(z3.InRe(r, z3.Star(z3.Range(chr(0), chr(255)))))
+        it.ex.assume(z3.Implies(z3.InRe(s.t, _ASCII), r == s.t))
+        it.ex.assume((z3.Length(r) == 0) == (z3.Length(s.t) == 0))
+        it.ex.note("lib", "str.encode('idna') (uninterpreted; facts: identity on pure-ASCII names when it succeeds; empty iff empty)")
+        return SBytes(r)
     r = _default_str_encode(it, s, *a, **k)
-    if getattr(it.ex, "idna_facts", False) and _codec_name(a, k) == "idna" and s.concrete() is None:
-        it.ex.assume(z3.Implies(z3.InRe(s.t, _ASCII), r.t == s.t))  # on this path the encoding succeeded
-        it.ex.note("assumed", "idna: encoding a pure-ASCII name returns it unchanged (CPython fast path)")
+    if enc in ("utf-8", "utf8"):
+        it.ex.assume((z3.Length(r.t) == 0) == (z3.Length(s.t) == 0))
+        it.ex.note("assumed", "utf-8 encoding: the result is empty iff the input is empty")
     return r
 
 
 @method(SBytes, "decode")
 def _bytes_decode_idna(it, s, *a, **k):
-    if getattr(it.ex, "idna_facts", False) and _codec_name(a, k) == "idna" and s.concrete() is None:
-        plain = z3.And(z3.InRe(s.t, _ASCII), z3.Not(z3.Contains(s.t, z3.StringVal("xn--"))))
-        it.ex.assume(z3.Implies(plain, uf("decodable_idna", _S, z3.BoolSort())(s.t)))
-        r = _default_bytes_decode(it, s, *a, **k)
-        it.ex.assume(z3.Implies(plain, r.t == s.t))
-        it.ex.note("assumed", "idna: decoding pure-ASCII bytes without 'xn--' returns them unchanged (CPython fast path)")
-        return r
-    return _default_bytes_decode(it, s, *a, **k)
+    if not getattr(it.ex, "idna_facts", False) or s.concrete() is not None or _codec_name(a, k) != "idna":
+        return _default_bytes_decode(it, s, *a, **k)
+    plain = z3.And(z3.InRe(s.t, _ASCII), z3.Not(z3.Contains(s.t, z3.StringVal("xn--"))))
+    ok = uf("decodable_idna", _S, z3.BoolSort())(s.t)
+    it.ex.assume(z3.Implies(plain, ok))
+    if not it.branch(SBool(ok)):
+        it.raise_(UnicodeError, "idna")
+    r = uf("decode_idna_strict", _S, _S)(s.t)
+    it.ex.assume(z3.Implies(plain, r == s.t))
+    it.ex.note("lib", "bytes.decode('idna') (uninterpreted; fact: pure-ASCII input without 'xn--' decodes to itself)")
+    return SStr(r)
